@@ -40,6 +40,7 @@ STATEFUL = [
     # form collides with another column
     # explicit bounds narrower than the data: replayed rows may all lie outside them
     "bs(x, df=4, lower_bound=2, upper_bound=8, extrapolation='clip')", "bs(x, df=3, lower_bound=3, upper_bound=7, extrapolation='zero')",
+    "cr(x, df=3, lower_bound=2, upper_bound=8, extrapolation='clip')", "cc(x, df=3, lower_bound=2.5, upper_bound=7.5, extrapolation='clip')",
     "center(bs(x, df=4))", "scale(cr(z, df=3))", "scale(poly(y, 2))", "center(`a b`)", "scale(`a b`):a_b", "scale(`a b`)", "standardize(`a b`)",
     # two different quoted names with the same sanitised alias, inside the same transform
     "center(`a-b`)", "scale(`a-b`)",
@@ -260,6 +261,8 @@ def gen():
             [["scale(x)"], ["z"], ["scale(x)", "C(G)"], ["z", "C(G)"]],
             [["bs(x, df=4, lower_bound=2, upper_bound=8, extrapolation='clip')"], ["hashed(H, levels=16)"]],
             [["bs(x, df=3, lower_bound=3, upper_bound=7, extrapolation='zero')"], ["z"], ["hashed(H, levels=8)", "x"]],
+            [["cr(x, df=3, lower_bound=2, upper_bound=8, extrapolation='clip')"], ["y"]],
+            [["cc(x, df=3, lower_bound=2.5, upper_bound=7.5, extrapolation='clip')"], ["A"]],
             # one quoted column inside several stateful transforms (each records its state under the sanitised alias)
             [["center(`a b`)"], ["scale(`a b`)"]],
             [["center(`a b`)"], ["center(`a-b`)"]],
